@@ -251,6 +251,40 @@ def run(ctx):
     except Exception as e:
       ctx.violation(f'C01:design-crash:{g.name}:{type(e).__name__}', f'generated acyclic design {g.name} could not be simulated: {type(e).__name__}: {str(e)[:200]}',
                     {'design_source': g.source(), 'traceback': traceback.format_exc()[-2000:]})
+  # size sweep: regular designs of every schedule length in windows around multiples of 32 (code generators that unroll or
+  # pack the schedule work in chunks): all pass groups must agree with the simple schedule
+  t_sw = time.time()
+  lens = set()
+  for K in (range(28, 100) if quick else range(1, 170)):
+    for extra in (0, 1):
+      L_ = 2 * K + 3 + extra
+      if quick and min(abs(L_ - m) for m in (64, 96, 128, 192)) > 4 and min(abs(L_ + 1 - m) for m in (64, 96, 128, 192)) > 4: continue
+      name = f'W{K}_{extra}'
+      lines = ['s.in_ = InPort( 8 )', 's.out = OutPort( 8 )', f's.c = [ Inc( 8 ) for _ in range({K}) ]', 'connect( s.c[0].in_, s.in_ )',
+               f'for k in range({K - 1}):', '  connect( s.c[k+1].in_, s.c[k].out )',
+               # the end of the chain is a real block (a net onto a top-level signal compiles to an empty function)
+               '@update', 'def up_out():', f'  s.out @= s.c[{K - 1}].out + 1']
+      if extra: lines += ['s.x = OutPort( 8 )', '@update', 'def up_x():', '  s.x @= s.in_ ^ 85']
+      srcw = sc.STRUCT_SRC + f'\nclass {name}( Component ):\n  def construct( s ):\n' + '\n'.join('    ' + l for l in lines) + '\n  def line_trace( s ):\n    return ""\n'
+      class GW: pass
+      gw = GW(); gw.name = name; gw.inputs = [('in_', ('bits', 8))]
+      try:
+        clsw, _ = sc.load_source(ctx, srcw, name)
+        ref = None
+        for sch, sd_ in [('simple', 0), ('dynamic', 0), ('unroll', 0), ('unroll', 1), ('unroll', 2), ('heuristic', 0), ('mamba', 0), ('mamba', 1)]:
+          tw = sc.build(clsw, sch, seed=sd_)
+          if sch == 'simple': lens.add(len(tw._sched.update_schedule))
+          trw = sc.simulate(tw, gw, 11, 3)
+          ctx.count((name, sch, 'sweep'), True, cls='size-sweep:' + sch)
+          if ref is None: ref = trw
+          else:
+            dw = sc.first_diff(ref, trw)
+            if dw:
+              ctx.violation(f'C01:schedule-dependent:size-sweep:{sch}:len{len(tw._sched.update_schedule) if hasattr(tw, "_sched") and hasattr(tw._sched, "update_schedule") else L_}', f'chain of {K} incrementers (+{extra} block): {sch} differs from simple at step {dw[0]}: {dw[2]}',
+                            {'design_source': srcw, 'scheduler': sch, 'step': dw[0], 'signals': dw[2]})
+      except Exception as e:
+        ctx.violation(f'C01:design-crash:size-sweep:{type(e).__name__}', f'size-sweep design {name} could not be simulated: {type(e).__name__}: {str(e)[:200]}', {'design_source': srcw, 'traceback': traceback.format_exc()[-1500:]})
+  ctx.extra['size_sweep'] = {'schedule_lengths_covered': sorted(lens), 'wall_s': round(time.time() - t_sw, 1)}
   defs = '''
 Definition case_ok (c : design * list (list nat)) : bool :=
   let '(d, os) := c in wf_design d && sw_ok d && nsl_ok d && noinv_ok d && forallb (sched_ok d) os.
